@@ -219,7 +219,7 @@ fn release_action_mappings(state: &mut State) -> Vec<Event> {
     if is_action_mapping(exsting_mapping) {
       if exsting_mapping.to.len() > 1 && is_any_modifier(&exsting_mapping.to) {
         for mod_key in exsting_mapping.to.iter().rev() {
-          if state.mapped_output_keys.contains(mod_key) {
+          if state.mapped_output_keys.contains(mod_key) && !keys_to_release.contains(mod_key) {
             keys_to_release.push(*mod_key);
           }
         }
